@@ -442,3 +442,72 @@ CMP_SCOPE = {
 
 def cmps_for_property(F, pid, rule_id):
 	return cmp_rule(F, rule_id, CMP_SCOPE[pid])
+
+# ----------------------------------------------------------------------------- constants census
+# Every named integer / bool constant of the workspace crates has the value it had when the table was reviewed
+# (rules/provenance_consts.json, generated from consts.tsv of both profiles).  Changing a protocol constant - a weight, a timeout in
+# ticks or blocks, a wire type, a TLV range bound, a limit - changes behaviour by definition; relations between the CLTV constants are
+# checked separately (08.a).  Removed or new constants are not judged.
+_CONST_TABLE = None
+
+def const_table():
+	global _CONST_TABLE
+	if _CONST_TABLE is None:
+		p = os.path.join(os.path.dirname(os.path.abspath(__file__)), 'provenance_consts.json')
+		_CONST_TABLE = json.load(open(p))
+	return _CONST_TABLE
+
+def const_files(F):
+	"""def path -> source file of every evaluated constant"""
+	if not hasattr(F, '_const_files'):
+		m = {}
+		for c in F.crates:
+			for l in open(os.path.join(F.dir, c, 'consts.tsv')):
+				p = l.rstrip('\n').split('\t')
+				if len(p) >= 4:
+					m[norm(p[0])] = p[3]
+		F._const_files = m
+	return F._const_files
+
+def const_rule(F, rule_id, file_res, floor=1):
+	import re
+	tab = const_table()
+	files = const_files(F)
+	out = []
+	n = 0
+	for name, val in sorted(F.consts.items()):
+		f = files.get(name, '')
+		if not any(re.search(p, f) for p in file_res):
+			continue
+		if name not in tab:
+			continue
+		n += 1
+		if tab[name] != val:
+			out.append(Result(rule_id, False, 'const:%s' % name.rsplit('::', 2)[-2] + '::' + name.rsplit('::', 1)[-1], 'constant %s is %s, reviewed value %s (a protocol / policy constant changed)' % (name, val, tab[name]), 1, where=f))
+	if n < floor:
+		return [Result(rule_id, False, 'anchor:constants', 'only %d reviewed constants found in %s (expected >= %d)' % (n, file_res, floor))]
+	if not out:
+		out.append(Result(rule_id, True, 'ok:constants', '%d named constants in %s have their reviewed values' % (n, '|'.join(file_res)), n))
+	return out
+
+CONST_SCOPE = {
+	'C01': ([r'ln/channel\.rs$', r'ln/chan_utils\.rs$', r'sign/tx_builder\.rs$', r'ln/interactivetxs\.rs$', r'ln/funding\.rs$'], 40),
+	'C02': ([r'ln/channelmanager\.rs$'], 10),
+	'C04': ([r'ln/inbound_payment\.rs$', r'ln/channelmanager\.rs$'], 10),
+	'C05': ([r'sign/', r'ln/chan_utils\.rs$'], 10),
+	'C06': ([r'chain/package\.rs$', r'chain/onchaintx\.rs$', r'chain/channelmonitor\.rs$'], 10),
+	'C07': ([r'chain/package\.rs$', r'chain/onchaintx\.rs$', r'chain/channelmonitor\.rs$', r'ln/chan_utils\.rs$', r'util/anchor_channel_reserves\.rs$', r'events/bump_transaction'], 20),
+	'C08': ([r'chain/channelmonitor\.rs$', r'ln/channelmanager\.rs$'], 10),
+	'C13': ([r'ln/wire\.rs$', r'ln/msgs\.rs$', r'util/ser\.rs$', r'lightning-types/'], 50),
+	'C14': ([r'ln/onion_utils\.rs$', r'onion_message/', r'blinded_path/'], 15),
+	'C15': ([r'ln/peer_handler\.rs$', r'ln/peer_channel_encryptor\.rs$'], 3),
+	'C16': ([r'routing/router\.rs$', r'routing/scoring\.rs$', r'routing/log_approx\.rs$'], 10),
+	'C17': ([r'routing/gossip\.rs$', r'util/scid_utils\.rs$', r'routing/utxo\.rs$', r'lightning-rapid-gossip-sync/'], 10),
+	'C18': ([r'offers/', r'lightning-invoice/'], 15),
+	'C19': ([r'util/persist\.rs$', r'lightning-persister/'], 3),
+	'C20': ([r'lightning-block-sync/'], 1),
+}
+
+def consts_for_property(F, pid, rule_id):
+	res, floor = CONST_SCOPE[pid]
+	return const_rule(F, rule_id, res, floor)
